@@ -310,6 +310,60 @@ class Session:
                      direction})
         ctx.case((self.cfg, 'overlap', direction, self.async_handlers), None)
 
+    def late_ack_after_call_timeout(self):
+        """call() gives up (its handler is still busy), the application
+        calls again, and the acknowledgement of the first call arrives while
+        the second is outstanding: the second call returns what *its*
+        handler returned."""
+        from vlib.drive import Delay
+        rng, b, ctx = self.rng, self.b, self.ctx
+        direction = rng.choice(['c2s', 'c2s', 's2c'])
+        ns = rng.choice(NSS)
+        n1, n2 = self.new_name(), self.new_name()
+        r1, r2 = self.payload(), self.payload()
+        self.rets[n1] = Delay(r1, 5)
+        self.rets[n2] = Delay(r2, 10)
+        self.history.append({'late_ack': [n1, n2], 'dir': direction,
+                             'ns': ns})
+        caller = b.h.c if direction == 'c2s' else b.d.sio
+        kw = {'namespace': ns}
+        if direction == 's2c':
+            kw['to'] = self.sids[ns]
+        out = {}
+
+        async def go():
+            try:
+                out['first'] = ('ok', await caller.call(n1, 1, timeout=1,
+                                                        **kw))
+            except Exception as e:
+                out['first'] = (type(e).__name__, None)
+            try:
+                out['second'] = ('ok', await caller.call(n2, 2, timeout=60,
+                                                         **kw))
+            except Exception as e:
+                out['second'] = (type(e).__name__, None)
+        try:
+            b.run(go(), horizon=30)
+        except Exception as e:
+            return self.fail('late-ack scenario raised %r' % e)
+        self.rets[n1] = self.rets[n2] = None
+        b.h.clear_errors()
+        b.d.clear_errors()
+        ctx.count('late_acks_after_call_timeout')
+        want = shape_result(gen.expected_args(r2))
+        if out.get('first', ('',))[0] != 'TimeoutError':
+            return self.fail('call(timeout=1) whose handler takes 5 s ended '
+                             'with %r' % (out.get('first'),))
+        got = out.get('second')
+        if not got or got[0] != 'ok' or not R.deep_eq(got[1], want) or (
+                isinstance(want, tuple) and not isinstance(got[1], tuple)):
+            return self.fail(
+                'call() issued after an earlier call had timed out returned '
+                '%r; its handler returned %r (the earlier handler returned '
+                '%r and answered late, while this call was outstanding)' % (
+                    got, r2, r1), {'direction': direction})
+        ctx.case((self.cfg, 'late_ack', direction), None)
+
     def reconnect_after_partial(self):
         """The connection is lost while a message of several frames is on
         its way to the client; the application connects the same client
@@ -354,7 +408,10 @@ class Session:
     def run(self):
         rng = self.rng
         for _ in range(rng.choice([20, 40])):
-            if self.cfg[1] == 'default' and rng.random() < 0.03:
+            if self.b.is_async and self.co and self.async_handlers and \
+                    rng.random() < 0.04:
+                self.late_ack_after_call_timeout()
+            elif self.cfg[1] == 'default' and rng.random() < 0.03:
                 self.reconnect_after_partial()
             elif self.b.is_async and self.co and rng.random() < 0.06:
                 self.overlap()
@@ -412,6 +469,7 @@ def run(ctx):
     ctx.require('overlapping_callback_groups', 5)
     ctx.require('binary_frames_through_bridge', 50)
     ctx.require('reconnects_after_partial_message', 5)
+    ctx.require('late_acks_after_call_timeout', 5)
     for cfg in CONFIGS:
         ctx.require('sessions_%s_%s_%s' % cfg, 1)
     # real transport (threaded pairing over 127.0.0.1, HTTP long-polling)
